@@ -1155,8 +1155,8 @@ def stable(sv, depth=0):
         return "phi(%s)" % stable_loc(sv[2], depth + 1)
     if h in ("min", "max"):
         return "%s(%s,%s)" % (h, r(sv[2]), r(sv[3]))
-    if h == "streq":
-        return "streq(%s,%s)" % (r(sv[1]), r(sv[2]))
+    if h == "streq" or h == "seqeq":
+        return "%s(%s,%s)" % (h, r(sv[1]), r(sv[2]))
     if h == "not":
         return "!%s" % r(sv[1])
     if h == "elem":
